@@ -480,26 +480,43 @@ Qed.
 Lemma cpre_geo c : cpreT c -> sgeo (cx_comp c) /\ cx_caret c <= length (cx_input c).
 Proof. intros (Hc & _ & _ & _ & _ & Hg). split; [apply Hg, I | exact Hc]. Qed.
 
-Lemma compose_fit_gen c :
-  sgeo (cx_comp c) -> cx_caret c <= length (cx_input c) -> wfit c -> fit (compose cfg translate c).
+Definition compose_sg1 (c : context) : segmentation :=
+  let sg0 := reset_input (cx_comp c) (firstn (cx_caret c) (cx_input c)) in
+  if (cx_caret c <? length (cx_input c)) && (cx_caret c =? confirmed_pos sg0)
+  then reset_input sg0 (cx_input c) else sg0.
+
+Lemma firstn_firstn_len {A} k (a : list A) : firstn (length (firstn k a)) a = firstn k a.
 Proof.
-  intros Hgeo Hc (He & L). unfold compose.
+  rewrite firstn_length. destruct (Nat.le_ge_cases k (length a)) as [H | H].
+  - rewrite Nat.min_l by lia. reflexivity.
+  - rewrite Nat.min_r by lia. rewrite firstn_all. symmetry. apply firstn_all2. lia.
+Qed.
+
+Lemma compose_sg1_facts c :
+  sgeo (cx_comp c) -> sgeo (compose_sg1 c) /\ sg_input (compose_sg1 c) = firstn (length (sg_input (compose_sg1 c))) (cx_input c).
+Proof.
+  intros Hgeo. unfold compose_sg1.
   set (sg0 := reset_input (cx_comp c) (firstn (cx_caret c) (cx_input c))).
   assert (G0 : sgeo sg0) by (apply g_reset, Hgeo).
-  assert (L0 : lfit false (sg_input sg0) (sg_segs sg0)).
-  { subst sg0. rewrite reset_input_input. apply reset_input_lfit; assumption. }
-  set (sg1 := if (cx_caret c <? length (cx_input c)) && (cx_caret c =? confirmed_pos sg0)
-              then reset_input sg0 (cx_input c) else sg0).
-  assert (G1 : sgeo sg1) by (subst sg1; destruct (_ && _); [apply g_reset|]; exact G0).
-  assert (L1 : lfit false (sg_input sg1) (sg_segs sg1)).
-  { subst sg1. destruct (_ && _); [|exact L0]. rewrite reset_input_input. apply reset_input_lfit; assumption. }
-  assert (P1 : sg_input sg1 = firstn (length (sg_input sg1)) (cx_input c)).
-  { subst sg1. destruct (_ && _).
-    - rewrite reset_input_input. symmetry. apply firstn_all.
-    - subst sg0. rewrite reset_input_input, firstn_length. rewrite Nat.min_l by lia. reflexivity. }
-  destruct (calc_segmentation_lfit false (cx_caret c) sg1 G1 L1) as (L2 & K2).
+  destruct (_ && _).
+  - split; [apply g_reset, G0|]. rewrite reset_input_input. symmetry. apply firstn_all.
+  - split; [exact G0|]. subst sg0. rewrite reset_input_input. symmetry. apply firstn_firstn_len.
+Qed.
+
+Lemma compose_fit_core c :
+  cx_err c = None -> sgeo (cx_comp c) ->
+  lfit false (sg_input (compose_sg1 c))
+       (sg_segs (fst (calc_loop cfg (S (length (sg_input (compose_sg1 c)))) (cx_caret c) (compose_sg1 c)))) ->
+  fit (compose cfg translate c).
+Proof.
+  intros He Hgeo L. destruct (compose_sg1_facts c Hgeo) as (G1 & P1).
+  unfold compose. fold (compose_sg1 c). set (sg1 := compose_sg1 c) in *.
   destruct (g_calc (cx_caret c) sg1 G1) as (G2 & O2).
   pose proof (calc_segmentation_input cfg (cx_caret c) sg1) as I2.
+  assert (L2 : lfit false (sg_input sg1) (sg_segs (fst (calc_segmentation cfg (cx_caret c) sg1)))).
+  { rewrite calc_segmentation_post. cbn [fst]. apply post_calc_lfit, L. }
+  assert (K2 : last_ok (sg_segs (fst (calc_segmentation cfg (cx_caret c) sg1)))).
+  { rewrite calc_segmentation_post. cbn [fst]. apply post_calc_last. }
   destruct (calc_segmentation cfg (cx_caret c) sg1) as [sg2 okf]. cbn [fst snd] in *. subst okf.
   destruct (g_translate (cx_opts c) sg2 G2) as (G3 & O3).
   unfold translate_segs in *.
@@ -511,10 +528,368 @@ Proof.
   unfold prefix_ok. cbn. rewrite I2. exact P1.
 Qed.
 
+Lemma compose_fit_gen c : sgeo (cx_comp c) -> wfit c -> fit (compose cfg translate c).
+Proof.
+  intros Hgeo (He & L). apply compose_fit_core; [exact He | exact Hgeo|].
+  destruct (compose_sg1_facts c Hgeo) as (G1 & _). apply calc_loop_lfit; [exact G1|].
+  unfold compose_sg1.
+  set (sg0 := reset_input (cx_comp c) (firstn (cx_caret c) (cx_input c))).
+  assert (G0 : sgeo sg0) by (apply g_reset, Hgeo).
+  assert (L0 : lfit false (sg_input sg0) (sg_segs sg0)).
+  { subst sg0. rewrite reset_input_input. apply reset_input_lfit; assumption. }
+  destruct (_ && _); [|exact L0]. rewrite reset_input_input. apply reset_input_lfit; assumption.
+Qed.
+
 Lemma compose_fit c : cpreT c -> wfit c -> fit (compose cfg translate c).
 Proof. intros H W. destruct (cpre_geo c H) as (G & Hc). apply compose_fit_gen; assumption. Qed.
 
 Lemma wfit_with_input c i k : wfit c -> wfit (ctx_with_input c i k).
 Proof. intros H; exact H. Qed.
+
+(** ---- the invariant pair ---- *)
+Definition good (c : context) : Prop := cinvT c /\ fit c.
+Definition sgood (s : state) : Prop := good (st_ctx s).
+
+Lemma good_geo c : cinvT c -> sgeo (cx_comp c) /\ cx_caret c <= length (sg_input (cx_comp c)).
+Proof. intros H. apply (cinv_geo cfg MPf IPt True c H I). Qed.
+
+Lemma compose_input_fit c i k : cinvT c -> fit c -> fit (compose cfg translate (ctx_with_input c i k)).
+Proof. intros H F. apply compose_fit_gen; [apply (good_geo c H) | apply fit_wfit in F; exact F]. Qed.
+
+Lemma compose_good c : cinvT c -> wfit c -> good (compose cfg translate c).
+Proof.
+  intros H W. split; [wf compose_inv; apply H|]. apply compose_fit_gen; [apply (good_geo c H) | exact W].
+Qed.
+
+Lemma push_input_good c ch : good c -> good (push_input cfg translate c ch).
+Proof.
+  intros (H & F). split; [wf push_input_inv|]. unfold push_input.
+  destruct (length (cx_input c) <=? cx_caret c); apply compose_input_fit; assumption.
+Qed.
+Lemma pop_input_good c n : good c -> good (fst (pop_input cfg translate c n)).
+Proof.
+  intros (H & F). split; [wf pop_input_inv|]. unfold pop_input.
+  destruct (cx_caret c <? n); [exact F|]. cbn [fst]. apply compose_input_fit; assumption.
+Qed.
+Lemma delete_input_good c n : good c -> good (fst (delete_input cfg translate c n)).
+Proof.
+  intros (H & F). split; [wf delete_input_inv|]. unfold delete_input.
+  destruct (length (cx_input c) <? cx_caret c + n); [exact F|]. cbn [fst]. apply compose_input_fit; assumption.
+Qed.
+Lemma set_caret_pos_good c pos : good c -> good (set_caret_pos cfg translate c pos).
+Proof. intros (H & F). split; [wf set_caret_pos_inv|]. unfold set_caret_pos. apply compose_input_fit; assumption. Qed.
+Lemma set_input_good c v : good c -> good (set_input cfg translate c v).
+Proof. intros (H & F). split; [wf set_input_inv|]. unfold set_input. apply compose_input_fit; assumption. Qed.
+
+Lemma clear_fit c : cx_err c = None -> fit (clear cfg translate c).
+Proof.
+  intros He. unfold clear. apply compose_fit_gen; [split; constructor|]. split; [exact He | constructor].
+Qed.
+Lemma clear_good c : good c -> good (clear cfg translate c).
+Proof. intros (H & F). split; [wf clear_inv | apply clear_fit, F]. Qed.
+
+Lemma clear_previous_segment_good c : good c -> good (fst (clear_previous_segment cfg translate c)).
+Proof.
+  intros G. unfold clear_previous_segment. destruct (sg_segs (cx_comp c)) as [|g r]; [exact G|].
+  destruct (length (cx_input c) <=? s_start g); [exact G|]. cbn [fst]. apply set_input_good, G.
+Qed.
+
+(** ---- replacing the last segment ---- *)
+Lemma set_back_lfit b inp sg g : lfit b inp (sg_segs sg) -> sfit b inp g -> lfit b inp (sg_segs (sg_set_back sg g)).
+Proof.
+  intros H Hg. unfold sg_set_back. destruct (sg_segs sg) as [|g0 r] eqn:E; [rewrite E; exact H|].
+  cbn. inversion H; constructor; assumption.
+Qed.
+
+Lemma set_back_sgeo sg g g0 r :
+  sgeo sg -> sg_segs sg = g0 :: r -> s_start g = s_start g0 -> seg_geo (length (sg_input sg)) g -> sgeo (sg_set_back sg g).
+Proof. intros H E Hs Hg. unfold sg_set_back. rewrite E. apply (set_back_geo sg g g0 r H E Hs Hg). Qed.
+
+Lemma back_seg_geo sg g0 r : sgeo sg -> sg_segs sg = g0 :: r -> seg_geo (length (sg_input sg)) g0.
+Proof. intros (_ & Hf) E. rewrite E in Hf. inversion Hf; assumption. Qed.
+
+Lemma fit_set_back c g0 r g :
+  fit c -> sg_segs (cx_comp c) = g0 :: r -> sfit true (sg_input (cx_comp c)) g ->
+  (closed g = true -> s_start g = s_end g) ->
+  fit (ctx_with_comp c (sg_set_back (cx_comp c) g)).
+Proof.
+  intros (He & L & K & P) E Hg Hc. split; [exact He|]. cbn [ctx_with_comp cx_comp]. rewrite set_back_input.
+  split; [apply set_back_lfit; assumption|]. split.
+  - unfold sg_set_back. rewrite E. cbn. exact Hc.
+  - unfold prefix_ok. cbn. rewrite set_back_input. exact P.
+Qed.
+
+Lemma closed_status g : closed g = true -> s_status g = SSelected \/ s_status g = SConfirmed.
+Proof. unfold closed. destruct (s_status g); cbn; intros H; try discriminate; auto. Qed.
+
+(** writing any index into an open segment, or into a closed empty one *)
+Lemma sel_sfit inp g i :
+  sfit true inp g -> (closed g = true -> s_start g = s_end g) -> sfit true inp (seg_with_sel g i).
+Proof.
+  intros (Ht & Hm) Hc. split; [exact Ht|]. intros m Em. cbn [s_menu seg_with_sel] in Em. specialize (Hm m Em).
+  unfold menu_ok in *. cbn [s_status seg_with_sel s_end s_start]. unfold oend in *. cbn [s_end s_start s_length seg_with_sel].
+  destruct (s_status g) eqn:Es; try exact Hm.
+  - destruct Hm as (_ & H2 & H3). assert (Hem : m = []) by (apply H3, Hc; unfold closed; rewrite Es; reflexivity).
+    split; [|split; assumption]. intros c Hsel. unfold selected_cand, cand_at in Hsel. cbn in Hsel. rewrite Em, Hem in Hsel.
+    unfold menu_at in Hsel. cbn in Hsel. destruct (0 <=? i)%N; [discriminate|]. destruct (N.to_nat i); discriminate.
+  - destruct Hm as (_ & H2 & H3). assert (Hem : m = []) by (apply H3, Hc; unfold closed; rewrite Es; reflexivity).
+    split; [|split; assumption]. intros c Hsel. unfold selected_cand, cand_at in Hsel. cbn in Hsel. rewrite Em, Hem in Hsel.
+    unfold menu_at in Hsel. cbn in Hsel. destruct (0 <=? i)%N; [discriminate|]. destruct (N.to_nat i); discriminate.
+Qed.
+
+Lemma back_of_fit c g r :
+  fit c -> sg_segs (cx_comp c) = g :: r ->
+  sfit true (sg_input (cx_comp c)) g /\ (closed g = true -> s_start g = s_end g).
+Proof. intros (_ & L & K & _) E. rewrite E in L, K. inversion L; subst. split; assumption. Qed.
+
+(** [f] changes only the index and non-raw tags of the last segment *)
+Lemma with_back_fit c f :
+  fit c ->
+  (forall g, sfit true (sg_input (cx_comp c)) g -> (closed g = true -> s_start g = s_end g) ->
+             sfit true (sg_input (cx_comp c)) (f g) /\ closed (f g) = closed g /\ s_start (f g) = s_start g /\ s_end (f g) = s_end g) ->
+  fit (with_back c f).
+Proof.
+  intros F Hf. unfold with_back. destruct (sg_segs (cx_comp c)) as [|g r] eqn:E; [exact F|].
+  destruct (back_of_fit c g r F E) as (Hg & Hc). destruct (Hf g Hg Hc) as (A & B & C & D).
+  apply (fit_set_back c g r); auto. rewrite B, C, D. exact Hc.
+Qed.
+
+Lemma set_sel_paging_fit c z : fit c -> fit (set_sel_paging c z).
+Proof.
+  intros F. apply with_back_fit; [exact F|]. intros g Hg Hc. split; [|repeat split; reflexivity].
+  apply (sfit_tags_insert true _ (seg_with_sel g (size_of_int z)) TPaging); [discriminate|]. apply sel_sfit; assumption.
+Qed.
+
+(** ---- Selector ---- *)
+Lemma sel_previous_page_good c : good c -> good (fst (sel_previous_page cfg c)).
+Proof.
+  intros (H & F). split; [wf sel_previous_page_inv|]. unfold sel_previous_page.
+  destruct (sg_segs (cx_comp c)) as [|s0 r0]; [exact F|]. cbn [fst]. apply set_sel_paging_fit, F.
+Qed.
+Lemma sel_next_page_good c : good c -> good (fst (sel_next_page cfg c)).
+Proof.
+  intros (H & F). split; [wf sel_next_page_inv|]. unfold sel_next_page.
+  destruct (sg_segs (cx_comp c)) as [|s0 r0]; [exact F|]. destruct (s_menu s0); [|exact F].
+  match goal with |- fit (fst (if ?a then (if ?b then _ else _) else if ?d then _ else _)) =>
+    destruct a; [destruct b|destruct d] end; cbn [fst]; try exact F; apply set_sel_paging_fit, F.
+Qed.
+Lemma sel_previous_candidate_good c : good c -> good (fst (sel_previous_candidate c)).
+Proof.
+  intros (H & F). split; [wf sel_previous_candidate_inv|]. unfold sel_previous_candidate.
+  destruct (is_linear_layout c && negb (caret_at_end_of_input c)); [exact F|].
+  destruct (sg_segs (cx_comp c)) as [|s0 r0]; [exact F|]. destruct (int_of_size (s_sel s0) <=? 0)%Z; [exact F|]. cbn [fst].
+  apply set_sel_paging_fit, F.
+Qed.
+Lemma sel_next_candidate_good c : good c -> good (fst (sel_next_candidate c)).
+Proof.
+  intros (H & F). split; [wf sel_next_candidate_inv|]. unfold sel_next_candidate.
+  destruct (is_linear_layout c && negb (caret_at_end_of_input c)); [exact F|].
+  destruct (sg_segs (cx_comp c)) as [|s0 r0]; [exact F|]. destruct (s_menu s0); [|exact F].
+  match goal with |- fit (fst (if ?a then _ else _)) => destruct a end; [exact F|]. cbn [fst]. apply set_sel_paging_fit, F.
+Qed.
+Lemma sel_home_good c : good c -> good (fst (sel_home c)).
+Proof.
+  intros (H & F). split; [wf sel_home_inv|]. unfold sel_home.
+  destruct (sg_segs (cx_comp c)) as [|s0 r0]; [exact F|]. destruct (0 <? s_sel s0)%N; [|exact F]. cbn [fst].
+  apply with_back_fit; [exact F|]. intros g Hg Hc. split; [apply sel_sfit; assumption | repeat split; reflexivity].
+Qed.
+Lemma sel_end_good c : good c -> good (fst (sel_end c)).
+Proof. intros G. unfold sel_end. destruct (cx_caret c <? length (cx_input c)); [exact G | apply sel_home_good, G]. Qed.
+
+(** ---- Context::Highlight, DeleteCandidate ---- *)
+Lemma set_back_same_sgeo c g0 r g :
+  cinvT c -> sg_segs (cx_comp c) = g0 :: r -> s_start g = s_start g0 -> s_end g = s_end g0 ->
+  sgeo (sg_set_back (cx_comp c) g).
+Proof.
+  intros H E E1 E2. destruct (good_geo c H) as (Hgeo & _). apply (set_back_sgeo _ g g0 r Hgeo E E1).
+  destruct (back_seg_geo _ g0 r Hgeo E) as (A & B). split; lia.
+Qed.
+
+Lemma highlight_good c i : good c -> good (fst (highlight cfg translate c i)).
+Proof.
+  intros (H & F). split; [wf highlight_inv|]. unfold highlight.
+  destruct (sg_segs (cx_comp c)) as [|g r] eqn:E; [exact F|]. destruct (s_menu g); [|exact F].
+  match goal with |- fit (fst (if ?a then _ else _)) => destruct a end; [exact F|]. cbn [fst].
+  destruct (back_of_fit c g r F E) as (Hg & Hc).
+  apply compose_fit_gen; [apply (set_back_same_sgeo c g r _ H E); reflexivity|].
+  apply fit_wfit. apply (fit_set_back c g r); auto. apply sel_sfit; assumption.
+Qed.
+
+Lemma delete_candidate_good s i : sgood s -> sgood (fst (delete_candidate cfg s i)).
+Proof.
+  intros (H & F). split; [wf delete_candidate_inv|]. unfold delete_candidate.
+  destruct (sg_segs (cx_comp (st_ctx s))) as [|g r] eqn:E; [exact F|]. rewrite Hdel.
+  destruct (cand_at g i); [|exact F]. cbn [fst st_ctx st_with_ctx].
+  destruct (back_of_fit _ g r F E) as (Hg & Hc). apply (fit_set_back _ g r); auto. apply sel_sfit; assumption.
+Qed.
+Lemma delete_current_selection_good s : sgood s -> sgood (fst (delete_current_selection cfg s)).
+Proof.
+  intros G. unfold delete_current_selection. destruct (sg_segs (cx_comp (st_ctx s))); [exact G|].
+  apply delete_candidate_good, G.
+Qed.
+
+(** ---- Context::BeginEditing ---- *)
+Lemma begin_editing_rev_lfit inp l : lfit true inp l -> lfit true inp (begin_editing_rev l).
+Proof.
+  induction l as [|g r IH]; intros H; [exact H|]. inversion H; subst. cbn [begin_editing_rev].
+  destruct (s_status g); try exact H; constructor; auto; try (apply IH; assumption).
+  apply sfit_tags_insert; [discriminate | assumption].
+Qed.
+Lemma begin_editing_rev_last l : last_ok l -> last_ok (begin_editing_rev l).
+Proof.
+  destruct l as [|g r]; [auto|]. cbn [begin_editing_rev]. destruct (s_status g) eqn:Es; cbn; unfold closed; cbn; rewrite ?Es; auto.
+Qed.
+Lemma begin_editing_good c : good c -> good (begin_editing c).
+Proof.
+  intros (H & He & L & K & P). split; [wf begin_editing_inv|]. split; [exact He|]. cbn.
+  split; [apply begin_editing_rev_lfit, L|]. split; [apply begin_editing_rev_last, K | exact P].
+Qed.
+
+(** ---- Segment::Reopen ---- *)
+Lemma seg_reopen_sfit inp g k : sfit true inp g -> sfit false inp (fst (seg_reopen g k)).
+Proof.
+  intros Hs. pose proof Hs as ((R & N) & Hm). unfold seg_reopen.
+  destruct (status_geb (s_status g) SSelected) eqn:Ec; cbn [negb]; [|apply sfit_weaken, Hs].
+  assert (Hcl : forall m, s_menu g = Some m -> forall c, In c m -> c_end c <= oend g).
+  { intros m Em. specialize (Hm m Em). unfold menu_ok in Hm. destruct (s_status g); cbn in Ec; try discriminate Ec; apply Hm. }
+  destruct (s_start g + s_length g =? k); cbn [fst].
+  - destruct (s_end g <? s_start g + s_length g) eqn:E2; [apply Nat.ltb_lt in E2 | apply Nat.ltb_ge in E2].
+    + split.
+      * split; unfold is_raw; cbn [s_tags s_start s_end s_length seg_with_status seg_with_tags seg_with_end]; rewrite has_tag_erase_raw.
+        -- intros Hr. destruct (R Hr) as (A & B & _). lia.
+        -- intros _. lia.
+      * intros m Em. cbn in Em. unfold menu_ok. cbn [s_status seg_with_status s_end seg_with_tags seg_with_end].
+        intros c Hc. specialize (Hcl m Em c Hc). unfold oend in Hcl. lia.
+    + split; [split; assumption|]. intros m Em. cbn in Em. unfold menu_ok. cbn [s_status seg_with_status s_end].
+      intros c Hc. specialize (Hcl m Em c Hc). unfold oend in Hcl. lia.
+  - split; [split; assumption|]. intros m Em. unfold menu_ok. cbn. reflexivity.
+Qed.
+
+Lemma g_seg_reopen n g k :
+  seg_geo n g -> k <= n -> s_start (fst (seg_reopen g k)) = s_start g /\ seg_geo n (fst (seg_reopen g k)).
+Proof. intros Hg Hk. wf seg_reopen_geo. Qed.
+
+Lemma reopen_previous_segment_good c : good c -> good (fst (reopen_previous_segment cfg translate c)).
+Proof.
+  intros (H & F). split; [wf reopen_previous_segment_inv|]. unfold reopen_previous_segment.
+  destruct (good_geo c H) as (Hgeo & Hcar). destruct F as (He & L & K & P).
+  pose proof (trim_lfit true _ (cx_comp c) L) as Lt. pose proof (trim_geo (cx_comp c) Hgeo) as Gt.
+  pose proof (trim_input (cx_comp c)) as Ei.
+  destruct (trim (cx_comp c)) as [sg trimmed]. cbn [fst] in *. destruct trimmed; [|split; [|split; [|split]]; assumption]. cbn [fst].
+  rewrite <- Ei in Lt, Hcar.
+  apply compose_fit_gen; cbn [ctx_with_comp cx_comp].
+  - destruct (sg_segs sg) as [|g r] eqn:E; [exact Gt|]. destruct (status_geb (s_status g) SSelected); [|exact Gt].
+    destruct (g_seg_reopen _ g (cx_caret c) (back_seg_geo sg g r Gt E) Hcar) as (R1 & R2).
+    apply (set_back_sgeo sg _ g r Gt E R1 R2).
+  - split; [exact He|]. cbn [ctx_with_comp cx_comp].
+    destruct (sg_segs sg) as [|g r] eqn:E; cbv beta iota; [rewrite E; constructor|].
+    destruct (status_geb (s_status g) SSelected); cbv beta iota.
+    + rewrite set_back_input. apply set_back_lfit; [rewrite E; apply lfit_weaken; exact Lt|].
+      apply seg_reopen_sfit. inversion Lt; assumption.
+    + rewrite E. apply lfit_weaken. exact Lt.
+Qed.
+
+Lemma reopen_sel_rev_lfit inp l k l' : lfit true inp l -> reopen_sel_rev l k = Some l' -> lfit false inp l'.
+Proof.
+  revert l'. induction l as [|g r IH]; intros l' H E; [discriminate|]. inversion H; subst. cbn [reopen_sel_rev] in E.
+  destruct (s_status g); try discriminate; try (apply IH; assumption).
+  destruct (has_tag TSelectedBeforeEditing (s_tags g)); [discriminate|]. injection E as <-.
+  constructor; [apply seg_reopen_sfit; assumption | apply lfit_weaken; assumption].
+Qed.
+Lemma g_reopen_sel_rev n l k l' :
+  chain_rev l -> Forall (seg_geo n) l -> k <= n -> reopen_sel_rev l k = Some l' -> chain_rev l' /\ Forall (seg_geo n) l'.
+Proof. intros A B C D. wf reopen_sel_rev_geo. Qed.
+
+Lemma reopen_previous_selection_good c : good c -> good (fst (reopen_previous_selection cfg translate c)).
+Proof.
+  intros (H & F). split; [wf reopen_previous_selection_inv|]. unfold reopen_previous_selection.
+  destruct (reopen_sel_rev (sg_segs (cx_comp c)) (cx_caret c)) as [l|] eqn:E; [|exact F]. cbn [fst].
+  destruct (good_geo c H) as ((Hc0 & Hf0) & Hcar). destruct F as (He & L & K & P).
+  destruct (g_reopen_sel_rev _ _ _ _ Hc0 Hf0 Hcar E) as (R1 & R2).
+  apply compose_fit_gen; [split; assumption|]. split; [exact He|]. cbn. apply (reopen_sel_rev_lfit _ _ _ _ L E).
+Qed.
+
+(** ---- ClearNonConfirmedComposition / RefreshNonConfirmedComposition / set_option ---- *)
+Lemma forward_last sg : last_ok (sg_segs (fst (forward sg))).
+Proof.
+  unfold forward. destruct (sg_segs sg) as [|g r] eqn:E; cbn [fst]; [rewrite E; exact I|].
+  destruct (s_start g =? s_end g) eqn:Ee; cbn [fst]; [rewrite E; cbn; intros _; apply Nat.eqb_eq, Ee | cbn; discriminate].
+Qed.
+
+Lemma drop_unselected_lfit b inp l : lfit b inp l -> lfit b inp (fst (drop_unselected l)).
+Proof.
+  induction l as [|g r IH]; intros H; [exact H|]. cbn [drop_unselected].
+  destruct (status_geb (s_status g) SSelected); [exact H|]. cbn [fst]. apply IH. inversion H; assumption.
+Qed.
+
+Lemma clear_non_confirmed_good c : good c -> good (fst (clear_non_confirmed c)).
+Proof.
+  intros (H & F). split; [wf clear_non_confirmed_inv|]. unfold clear_non_confirmed.
+  destruct F as (He & L & K & P). pose proof (drop_unselected_lfit true _ _ L) as Ld.
+  destruct (drop_unselected (sg_segs (cx_comp c))) as [l reverted]. cbn [fst] in Ld.
+  destruct reverted; [|split; [|split; [|split]]; assumption]. cbn [fst].
+  split; [exact He|]. cbn [ctx_with_comp cx_comp]. rewrite (forward_input (sg_with_segs (cx_comp c) l)).
+  split; [apply (forward_lfit true _ (sg_with_segs (cx_comp c) l)); exact Ld|]. split; [apply forward_last|].
+  unfold prefix_ok. cbn [ctx_with_comp cx_comp cx_input]. rewrite (forward_input (sg_with_segs (cx_comp c) l)). exact P.
+Qed.
+
+Lemma refresh_non_confirmed_good c : good c -> good (fst (refresh_non_confirmed cfg translate c)).
+Proof.
+  intros G. unfold refresh_non_confirmed. pose proof (clear_non_confirmed_good c G) as (H1 & F1).
+  destruct (clear_non_confirmed c) as [c1 reverted]. cbn [fst] in *.
+  destruct reverted; [|exact G]. cbn [fst]. apply compose_good; [exact H1 | apply fit_wfit, F1].
+Qed.
+
+Lemma set_option_good c n v : good c -> good (set_option cfg translate c n v).
+Proof.
+  intros G. unfold set_option. destruct (is_composing _); [|exact G].
+  apply (refresh_non_confirmed_good (ctx_with_opts c (opts_set (cx_opts c) n v))). exact G.
+Qed.
+
+(** ---- the read-only views never reach substr with pos > size ---- *)
+Lemma substr_se_ok s pos en : pos <= length s -> snd (substr_se s pos en) = true.
+Proof.
+  intros H. unfold substr_se. replace (length s <? pos) with false by (symmetry; apply Nat.ltb_ge; lia).
+  destruct (pos <=? en); reflexivity.
+Qed.
+
+Lemma commit_text_loop_ok inp l acc :
+  Forall (seg_geo (length inp)) l -> snd acc = true -> snd (commit_text_loop inp l acc) = true.
+Proof.
+  revert acc. induction l as [|g r IH]; intros [[res en] ok] Hf Hok; [exact Hok|]. cbn [snd] in Hok. subst ok.
+  inversion Hf as [|? ? (A & B) Hr]; subst. cbn [commit_text_loop]. apply IH; [exact Hr|].
+  destruct (selected_cand g); [reflexivity|]. destruct (has_tag TPhony (s_tags g)); [reflexivity|].
+  pose proof (substr_se_ok inp (s_start g) (s_end g) ltac:(lia)) as Hs. destruct (substr_se inp (s_start g) (s_end g)). cbn in *. exact Hs.
+Qed.
+
+Lemma comp_commit_text_ok sg : sgeo sg -> snd (comp_commit_text sg) = true.
+Proof.
+  intros (_ & Hf). unfold comp_commit_text, segs_fwd.
+  pose proof (commit_text_loop_ok (sg_input sg) (rev (sg_segs sg)) ([], 0, true)) as H.
+  destruct (commit_text_loop (sg_input sg) (rev (sg_segs sg)) ([], 0, true)) as [[res en] ok]. cbn [snd] in *.
+  apply H; [|reflexivity]. apply Forall_rev, Hf.
+Qed.
+
+Lemma ctx_commit_text_ok c : cinvT c -> snd (ctx_commit_text c) = true.
+Proof.
+  intros H. unfold ctx_commit_text. destruct (get_option c opt_dumb); [reflexivity|].
+  apply comp_commit_text_ok, (good_geo c H).
+Qed.
+
+Lemma commit_good s : sgood s -> sgood (fst (commit cfg translate s)).
+Proof.
+  intros (H & F). split; [wf commit_inv|]. unfold commit. destruct (negb (is_composing (st_ctx s))); [exact F|].
+  pose proof (ctx_commit_text_ok (st_ctx s) H) as Hok. destruct (ctx_commit_text (st_ctx s)) as [text ok]. cbn [snd] in Hok. subst ok.
+  cbn [fst st_ctx st_with_ctx sink ctx_check]. apply clear_fit, F.
+Qed.
+
+(** commit needs only the first invariant and a clear error flag *)
+Lemma commit_good_gen s :
+  sinvT s -> cx_err (st_ctx s) = None -> is_composing (st_ctx s) = true -> sgood (fst (commit cfg translate s)).
+Proof.
+  intros H He Hc. split; [wf commit_inv|]. unfold commit. rewrite Hc. cbn [negb].
+  pose proof (ctx_commit_text_ok (st_ctx s) H) as Hok. destruct (ctx_commit_text (st_ctx s)) as [text ok]. cbn [snd] in Hok. subst ok.
+  cbn [fst st_ctx st_with_ctx sink ctx_check]. apply clear_fit, He.
+Qed.
 
 End Full.
